@@ -17,7 +17,7 @@ class Contract:
                  raises=None, raises_ensures=None, modifies=(), loops=None, inline=False,
                  trusted=False, prop=None, closure=None, note="", param_names=None,
                  allow_any_raise=False, replay=None, cases=None, ghost_params=None, frame=None,
-                 decreases=None, raise_modifies=(), assumes=()):
+                 decreases=None, raise_modifies=(), assumes=(), ghost_after=None, inline_callees=()):
         self.key = key
         self.params = dict(params or {})
         self.self_model = self_model
@@ -44,6 +44,13 @@ class Contract:
                 sp["decreases_src"] = sp["decreases"]
                 sp["decreases"] = self._p(sp["decreases"])
             self.loops[o] = sp
+        # ghost code: {source text of a statement of the function: [ghost statements run right after it]}
+        self.ghost_after = {}
+        for k, stmts in (ghost_after or {}).items():
+            self.ghost_after[ast.unparse(ast.parse(k).body[0])] = [ast.parse(x).body[0] for x in stmts]
+        self.ghost_after_src = dict(ghost_after or {})
+        # callees executed from their real source (not via their contract) while verifying this function
+        self.inline_callees = set(inline_callees)
         self.inline = inline
         self.trusted = trusted
         self.prop = prop
